@@ -214,7 +214,7 @@ func (g *Gen) discharge(obls []*Obligation, workDir string, timeoutS int, all bo
 			}
 			if r.result == "unknown" && o.CexOutput == "" {
 				// one retry with a longer limit before giving up
-				r2 := runSolvers(fn, timeoutS*3, false, skipCvc5)
+				r2 := runSolversV(files, timeoutS*3, false, skipCvc5)
 				if r2.result != "unknown" {
 					r = r2
 				} else {
